@@ -93,6 +93,21 @@ Predict(c) ==
         gainx |-> [i \in 1..RX(c) |-> Gain(c.sx[i], AlphaOf(c.fam, c.alpha)[1])],
         wcovy16 |-> [j \in 1..RY(c) |-> WCovEig16(c.sy[j], AlphaOf(c.fam, c.alpha)[2])],
         alpha  |-> AlphaOf(c.fam, c.alpha),
+        \* --- regression content of the analysis (beyond the listed properties; bound as SPEC-NOTE clauses) ---
+        \* fraction of the variance of X carried by mode i's X pattern: sx^2 / sum sx^2 (numerator; 0 for an unmatched Y mode)
+        fvexx  |-> [i \in 1..k |-> IF o[i] <= RX(c) THEN c.sx[o[i]] * c.sx[o[i]] ELSE 0],
+        fvexxDen |-> SumSeq([j \in 1..RX(c) |-> c.sx[j] * c.sx[j]]),
+        fveyy  |-> [i \in 1..k |-> c.sy[o[i]] * c.sy[o[i]]],
+        fveyyDen |-> SumSeq([j \in 1..RY(c) |-> c.sy[j] * c.sy[j]]),
+        \* fraction of the X-explainable variance of Y explained by mode i: c^2 sy^2 / sum_j c_j^2 sy_j^2 (x 25)
+        fveyx  |-> [i \in 1..k |-> IF Matched(c, o[i]) THEN c.ovl[o[i]] * c.ovl[o[i]] * c.sy[o[i]] * c.sy[o[i]] ELSE 0],
+        fveyxDen |-> SumSeq([j \in 1..RY(c) |-> IF Matched(c, j) THEN c.ovl[j] * c.ovl[j] * c.sy[j] * c.sy[j] ELSE 0]),
+        \* predict(training X): the regression of the Y score series on the X score series, i.e. its orthogonal
+        \* projection c * wy * u; 25 * squared norm (kappa = n), and 25 * squared norm of the Y scores themselves
+        predn  |-> [i \in 1..k |-> IF Matched(c, o[i])
+                                   THEN W(c.sy[o[i]], AlphaOf(c.fam, c.alpha)[2]) * W(c.sy[o[i]], AlphaOf(c.fam, c.alpha)[2]) * c.ovl[o[i]] * c.ovl[o[i]]
+                                   ELSE 0],
+        scoren |-> [i \in 1..k |-> 25 * W(c.sy[o[i]], AlphaOf(c.fam, c.alpha)[2]) * W(c.sy[o[i]], AlphaOf(c.fam, c.alpha)[2])],
         scaleExp2 |-> c.cexp[1] * AlphaOf(c.fam, c.alpha)[1] + c.cexp[2] * AlphaOf(c.fam, c.alpha)[2]]
 
 Admissible(c) ==
@@ -172,4 +187,23 @@ C10_PcaAllIsNoPca ==
 \* C10/C09: for MCA the factor is one: sigma = sx * sy * c / (n-1)
 C09_McaFactorOne ==
     (Done /\ cfg.fam = "MCA") => \A i \in 1..pred.k : pred.sig75[i] = pred.sx[i] * pred.sy[i] * pred.c5[i]
+
+-----------------------------------------------------------------------------
+\* Beyond the listed properties: laws of the regression content (fractions of variance, predict).
+\* Each mode carries a share of each field's variance; the shares of distinct modes never add up to more than all of it,
+\* and to all of it exactly when every mode of the field is retained
+XC_FveAtMostOne ==
+    Done => /\ SumSeq(pred.fvexx) <= pred.fvexxDen
+            /\ SumSeq(pred.fveyy) <= pred.fveyyDen
+            /\ SumSeq(pred.fveyx) <= pred.fveyxDen
+            /\ (pred.k = RY(cfg)) => SumSeq(pred.fveyy) = pred.fveyyDen
+            /\ (pred.k >= pred.npairs) => SumSeq(pred.fveyx) = pred.fveyxDen
+\* X explains nothing of a Y mode it is uncorrelated with, and nothing else
+XC_FveYXVanishesIffUncorrelated == Done => \A i \in 1..pred.k : (pred.fveyx[i] = 0) <=> (pred.c5[i] = 0)
+\* predict(training X) is an orthogonal projection of the Y scores: never longer than they are, equal iff c = 1,
+\* and its squared length is c^2 times theirs
+XC_PredictIsProjection ==
+    Done => \A i \in 1..pred.k : /\ pred.predn[i] <= pred.scoren[i]
+                                  /\ (pred.predn[i] = pred.scoren[i]) <=> (pred.c5[i] = 5)
+                                  /\ pred.predn[i] * 25 = pred.scoren[i] * pred.c5[i] * pred.c5[i]
 =============================================================================
